@@ -45,6 +45,8 @@ type StackOpts struct {
 	PreparedDb   bool
 	PreparedPath string
 	Mutate       func(*config.AppConfig)
+	DebugLog     bool // a real logger at the service's DEFAULT level (debug) writing to io.Discard instead of zerolog.Nop():
+	// code that only runs "when debug logging is on" (request / body logging middleware ...) is then part of what runs
 }
 
 // Stack is one running instance.
@@ -74,6 +76,9 @@ func NewStack(o StackOpts) (*Stack, error) {
 	}
 	gin.SetMode(gin.ReleaseMode)
 	lg := zerolog.Nop()
+	if o.DebugLog {
+		lg = zerolog.New(io.Discard).Level(zerolog.DebugLevel)
+	}
 	cfg := config.GetDefaultAppConfig()
 	cfg.Db.Engine = config.DBSQLite
 	cfg.Db.SchemaPath = filepath.Join(repoRoot(), "database", "migrations")
@@ -142,6 +147,16 @@ func (s *Stack) Close() {
 func (s *Stack) Reopen() (*Stack, error) {
 	s.Close()
 	return NewStack(s.Opts)
+}
+
+// ReopenAbandoned opens the same database file again WITHOUT closing the old handle first: a killed process closes
+// nothing (no final checkpoint, no clean-up of journal / side files); the old handle is returned so that the caller
+// can close it at the end of the run.
+func (s *Stack) ReopenAbandoned() (*Stack, *sqlx.DB, error) {
+	old := s.DB
+	s.DB = nil
+	ns, err := NewStack(s.Opts)
+	return ns, old, err
 }
 
 // Do performs one HTTP request against the engine in-process.
